@@ -10,8 +10,9 @@ from __future__ import annotations
 
 import numpy as np
 
-from .. import recorded
-from ..harness import RngProxy
+
+from .. import env, recorded
+from ..harness import RngProxy, to_np
 
 ID = "C08"
 LEVEL = "exploration"
@@ -87,6 +88,27 @@ def run_case(case):
         raise base.exc
     recorded.judge_evidence(base, where, viol, counters)
     T = len(base.hist["beta"])
+    # the per-step ratio and its variance are functions of the population and the temperature pair - not of the array
+    # namespace the population happens to live in: the same recorded population gives the same values in all three
+    if T >= 1 and base.pops:
+        from aspire.samples import SMCSamples
+
+        pop = base.pops[0]
+        b1 = float(base.hist["beta"][0])
+        vals = {}
+        for ns in ("numpy", "torch", "jax"):
+            xq = env.xp_of(ns)
+            sq = SMCSamples(x=xq.asarray(pop["x"].astype(float)), log_likelihood=xq.asarray(pop["ll"].astype(float)), log_prior=xq.asarray(pop["lp"].astype(float)),
+                            log_q=xq.asarray(pop["lq"].astype(float)), beta=float(pop["beta"]), xp=xq, dtype="float64")
+            vals[ns] = (float(to_np(sq.log_evidence_ratio(b1))), float(to_np(sq.log_evidence_ratio_variance(b1))))
+        counters["namespace_agreement_checked"] += 1
+        r0, v0 = vals["numpy"]
+        for ns in ("torch", "jax"):
+            r1, v1 = vals[ns]
+            if np.isfinite(r0) and not (abs(r1 - r0) <= 1e-9 * (1 + abs(r0))):
+                viol.append({"mech": "C08/ratio-depends-on-the-array-namespace", "detail": f"{where}: first population, beta 0->{b1}: numpy {r0!r}, {ns} {r1!r}"})
+            if np.isfinite(v0) and not (abs(v1 - v0) <= 1e-9 * abs(v0) + 1e-300):
+                viol.append({"mech": "C08/variance-depends-on-the-array-namespace", "detail": f"{where}: first population ({len(pop['x'])} particles), beta 0->{b1}: numpy {v0!r}, {ns} {v1!r}"})
     partners = []
     if cfg["sampler"] == "smc":
         # (a) different resampling stream: the first ratio depends on the initial population only
